@@ -119,6 +119,15 @@ ICZero(vs) ==
     { [ics |-> Zeroed(ICOne(vs, i)), icform |-> "float"] : i \in 1..Len(NonExo(vs)) }
     \cup { [ics |-> Zeroed(ICAll(vs)), icform |-> f] : f \in {"float", "int"} }
 
+(* the same initial condition stated twice with different values (the second overrides what *)
+(* was installed first): on one variable, on all, and restated down to zero                  *)
+Shifted(ics, d) == [i \in 1..Len(ics) |-> [ics[i] EXCEPT !.val = @ + d]]
+HasRestatedIC(c) == \E i, j \in 1..Len(c.ics) : i < j /\ c.ics[i].name = c.ics[j].name
+ICRestated(vs) ==
+    { [ics |-> Shifted(ICOne(vs, i), 20) \o ICOne(vs, i), icform |-> "float"] : i \in 1..Len(NonExo(vs)) }
+    \cup { [ics |-> Shifted(ICAll(vs), 20) \o ICAll(vs), icform |-> f] : f \in {"float", "int"} }
+    \cup { [ics |-> ICAll(vs) \o Zeroed(ICAll(vs)), icform |-> "float"] }
+
 ICChoices(vs) ==
     { [ics |-> << >>, icform |-> "float"] }
     \cup { [ics |-> ICOne(vs, i), icform |-> "float"] : i \in 1..Len(NonExo(vs)) }
@@ -126,6 +135,7 @@ ICChoices(vs) ==
     \cup { [ics |-> ICAll(vs), icform |-> f] : f \in {"float", "int", "undef"} }
     \cup ICTime(vs)
     \cup ICZero(vs)
+    \cup ICRestated(vs)
 
 Mk(b, hw, x, ic, r) ==
     [bp |-> b, vars |-> BP(b), exo |-> ExoSpec(x.form, x.extra, hw.h), ics |-> ic.ics,
@@ -160,6 +170,8 @@ KeepQuick(c) == /\ ExoRejected(c) => (c.ics = << >> \/ (Len(c.ics) > 1 /\ c.icfo
                                     /\ (c.exo.form = "scalar" \/ (c.exo.form = "list" /\ Len(c.exo.vals) = c.horizon + 1)))
                 /\ HasZeroIC(c) => (c.where = "block" /\ c.bp \notin ZBPs
                                     /\ (c.exo.form = "scalar" \/ (c.exo.form = "list" /\ Len(c.exo.vals) = c.horizon + 1)))
+                /\ HasRestatedIC(c) => (c.where = "block" /\ c.bp \notin ZBPs
+                                        /\ (c.exo.form = "scalar" \/ (c.exo.form = "list" /\ Len(c.exo.vals) = c.horizon + 1)))
                 /\ c.bp \in ZBPs => (c.where = "block" /\ ~HasTimeIC(c)
                                      /\ (c.exo.form = "scalar" \/ (c.exo.form = "list" /\ Len(c.exo.vals) = c.horizon + 1)))
                 /\ c.bp = "B5" => (c.where \in {"block", "solver"} /\ c.icform = "float"
@@ -217,6 +229,8 @@ InitThorough ==
                           /\ ((HasTimeIC(c) \/ c.bp = "B5") => c.where \in {"block", "solver", "default"})
                           /\ (HasZeroIC(c) => (c.where \in {"block", "solver"} /\ c.bp \notin ZBPs
                                                /\ c.exo.form \in {"list", "scalar"}))
+                          /\ (HasRestatedIC(c) => (c.where \in {"block", "solver"} /\ c.bp \notin ZBPs
+                                                   /\ c.exo.form \in {"list", "scalar"}))
                           /\ (c.bp \in ZBPs => (c.where = "block" /\ ~HasTimeIC(c) /\ c.exo.form \in {"list", "scalar"}))
               IN keep /\ StartWith(c)
     \/ PairInit(BPs \ ZBPs, 0..5, {0, 3})
